@@ -1144,6 +1144,42 @@ func intConstStr(v *big.Int) string {
 type Script struct {
 	c       *TermCtx
 	asserts []*Term
+	// range facts of the reachable terms, computed by PrepareFacts (which creates terms and therefore runs under
+	// the owner's lock); String itself only reads
+	facts      map[*Term]*Term
+	factsReady bool
+}
+
+// PrepareFacts computes the range assertions for every term reachable from the assertions and model terms.
+func (s *Script) PrepareFacts(modelTerms []*Term) {
+	c := s.c
+	s.facts = map[*Term]*Term{}
+	seen := map[*Term]bool{}
+	var visit func(t *Term)
+	visit = func(t *Term) {
+		if seen[t] {
+			return
+		}
+		seen[t] = true
+		for _, a := range t.Args {
+			visit(a)
+		}
+		if t.Op == "uf" {
+			if rd := c.recs[t.Name]; rd != nil {
+				visit(rd.Body)
+			}
+		}
+		if f := c.rangeFact(t); f != nil && !f.IsTrue() {
+			s.facts[t] = f
+		}
+	}
+	for _, a := range s.asserts {
+		visit(a)
+	}
+	for _, m := range modelTerms {
+		visit(m)
+	}
+	s.factsReady = true
 }
 
 func (c *TermCtx) NewScript() *Script { return &Script{c: c} }
@@ -1307,7 +1343,13 @@ func (s *Script) String(getModel bool, modelTerms []*Term) string {
 		if hasBound[t] {
 			continue
 		}
-		if f := c.rangeFact(t); f != nil && !f.IsTrue() {
+		var f *Term
+		if s.factsReady {
+			f = s.facts[t]
+		} else {
+			f = c.rangeFact(t)
+		}
+		if f != nil && !f.IsTrue() {
 			fmt.Fprintf(&sb, "(assert %s)\n", pr(f))
 		}
 	}
